@@ -157,16 +157,21 @@ func (i *Interpreter) ProcessPrefixExpression(exp *ast.PrefixExpression, opt *Ex
 			)
 		}
 	case "-":
+		// The operand may be the value stored in a variable (Get hands out the stored pointer),
+		// so negate a copy: evaluating -var.a must not change var.a
 		switch t := v.(type) {
 		case *value.Integer:
-			t.Value = -t.Value
-			return t, nil
+			n := value.Unwrap[*value.Integer](t.Copy())
+			n.Value = -n.Value
+			return n, nil
 		case *value.Float:
-			t.Value = -t.Value
-			return t, nil
+			n := value.Unwrap[*value.Float](t.Copy())
+			n.Value = -n.Value
+			return n, nil
 		case *value.RTime:
-			t.Value = -t.Value
-			return t, nil
+			n := value.Unwrap[*value.RTime](t.Copy())
+			n.Value = -n.Value
+			return n, nil
 		default:
 			return value.Null, errors.WithStack(
 				exception.Runtime(&exp.GetMeta().Token, `Unexpected "-" prefix operator for %v`, v),
